@@ -55,6 +55,8 @@ func (g *Generator) makeGetSet() {
 				named, ok := shoot.AssignableToIface(f.typ, set)
 				if ok {
 					setIfaces = append(setIfaces, types.TypeString(named, g.qualifier))
+				} else {
+					continue
 				}
 
 				iface, ok := named.Underlying().(*types.Interface)
